@@ -904,6 +904,26 @@ func (c *Ctx) evalCall(e *Expr, env *Env) *Val {
 			return c.iteVal(lt.S, a, b)
 		}
 		return c.iteVal(lt.S, b, a)
+	case "deref":
+		// deref(p): current content of the variable p points to (captured variables of closures)
+		x := arg(0)
+		if x == nil || x.T == nil {
+			return nil
+		}
+		pt, ok := x.T.Underlying().(*types.Pointer)
+		if !ok {
+			c.specErr("deref of non-pointer")
+			return nil
+		}
+		st := env.st
+		if env.inOld {
+			st = env.old
+		}
+		save := c.inSpec
+		c.inSpec = true
+		v := c.load(x, pt.Elem(), st)
+		c.inSpec = save
+		return v
 	case "as", "isType":
 		// as(x, T): view the interface/pointer value x as *T (x holds a *T; interface values
 		// holding a non-nil pointer are identified with that pointer)
